@@ -343,7 +343,7 @@ pub fn build(tier: &str) -> SimCheck {
         scenarios,
         oracle: Box::new(oracle),
         bound: 2,
-        limits: Limits { max_wall_s: if thorough { 1500.0 } else { 55.0 }, ..Default::default() },
+        limits: Limits { max_wall_s: if thorough { 1500.0 } else { 150.0 }, ..Default::default() },
         rule: "scenario = pool mode x pool_size {1,2} x program of X (two transactions, COPY in + CopyDone/CopyFail, extended batch, idle-in-transaction timeout, autocommit; X stays connected) x program of Y x cancel key (X's, Y's, stale key of a client that left by Terminate / that vanished inside a transaction, random, right pid wrong secret); also with a RELOAD that changes another pool / X's own pool placed anywhere; backend replies gated so statements are genuinely running; the cancel event placed at every point of every interleaving with <= 2 deviations".into(),
         assumptions: vec!["ownership interval of a server session judged at quiescent instants from the reference backend's log (first statement of a transaction .. delivery of the ReadyForQuery(idle) that ends it)".into()],
     }
